@@ -92,11 +92,10 @@ func (e *Engine) contractsFor(prop string) map[string]*Contract {
 		}
 	}
 	for k, c := range e.schemaContracts(prop) {
+		// the schema contract is verified on its own (its frame is "nothing"), next to any hand-written contract
+		c.FnKey = k
 		if _, dup := out[k]; dup {
-			// merge: schema clauses are appended to the hand-written contract
-			out[k] = mergeContracts(out[k], c)
-		} else if base := e.Contracts[k]; base != nil && !base.Assumed && !base.Inline {
-			out[k] = mergeContracts(base, c)
+			out[k+"@schema-"+prop] = c
 		} else {
 			out[k] = c
 		}
